@@ -38,7 +38,10 @@ type C17Case struct {
 	// `root`); "dual-star" = SELECT * FROM dual (the top level scope itself). Wrapped() must behave exactly like
 	// handing over {"root": input}, also when the input has a key `root` of its own (the generator adds one).
 	FromMode string `json:"from_mode,omitempty"`
-	BSQuote  bool   `json:"bsquote,omitempty"` // variant spells a quote inside a literal as \' (canonical: '')
+	// Nest: the statement is placed inside another one - "cte" (WITH c AS (Q) SELECT * FROM c), "derived"
+	// (SELECT * FROM (Q) x) or "union" (Q UNION ALL Q): options apply to nested selects exactly as to the outer one
+	Nest    string `json:"nest,omitempty"`
+	BSQuote bool   `json:"bsquote,omitempty"` // variant spells a quote inside a literal as \' (canonical: '')
 }
 
 var c17LitPieces = []string{"\"", "'", "`", "\\", "[", "]", "é", "日本", "a", " ", "[1,2]", "\"x\"", "\\\"", "]]", "[[", "''", "b", "😀", "\\\\", "ARRAY(", ")", ","}
@@ -139,6 +142,9 @@ func genC17(t *rapid.T) any {
 		}
 		c.Doc["root"] = map[string]any{"t": append(other, map[string]any{"k": -99.0, "s": "root-of-the-input"})}
 	}
+	if c.FromMode != "dual-star" && rapid.IntRange(0, 3).Draw(t, "nest") == 0 {
+		c.Nest = rapid.SampledFrom([]string{"cte", "derived", "union"}).Draw(t, "nestkind")
+	}
 	if rapid.IntRange(0, 2).Draw(t, "prime") == 0 {
 		own := map[[2]bool]string{{false, false}: "", {true, false}: "pg", {false, true}: "arrays", {true, true}: "pg+arrays"}[[2]bool{c.PG, c.Arrays}]
 		var others []string
@@ -230,6 +236,14 @@ func (c *C17Case) render(variant bool) string {
 	if c.Where != nil {
 		s += " WHERE " + sq.Render(c.Where, st)
 	}
+	switch c.Nest {
+	case "cte":
+		s = "WITH c AS (" + s + ") SELECT * FROM c"
+	case "derived":
+		s = "SELECT * FROM (" + s + ") x"
+	case "union":
+		s = s + " UNION ALL " + s
+	}
 	if variant && c.BR && c.Pad {
 		s = padBrackets(s)
 	}
@@ -294,6 +308,9 @@ func checkC17(c *C17Case) Result {
 	res.Execs += 2
 	o := Opts{Wrapped: c.Wrapped, PG: c.PG, Arrays: c.Arrays}
 	res.Labels = append(res.Labels, "opts:"+o.String())
+	if c.Nest != "" {
+		res.Labels = append(res.Labels, "nested-in:"+c.Nest)
+	}
 	if _, own := c.Doc["root"]; own {
 		res.Labels = append(res.Labels, "wrapped:input-has-own-root-key", "wrapped:from-"+map[string]string{"": "root.t", "unqualified": "unqualified-name", "dual-star": "dual-star"}[c.FromMode])
 	}
@@ -358,7 +375,7 @@ func checkC17(c *C17Case) Result {
 	}
 	// direct echo oracle for pure string-literal items
 	for _, it := range c.Items {
-		if it.Expr.K != "str" || (c.Wrapped && c.FromMode == "dual-star") {
+		if it.Expr.K != "str" || (c.Wrapped && c.FromMode == "dual-star") || c.Nest == "derived" {
 			continue
 		}
 		for _, r := range variant.Rows {
